@@ -43,7 +43,8 @@ CONSTANTS MaxLen,     \* seq mode: maximal number of lines
           Mode,       \* "seq" (C12: arbitrary class sequences) | "struct" (C13: rendered structures)
           MaxSecs,    \* struct mode: number of sections after the summary
           Variety,    \* struct mode: "full" | "thin" | "mini" item variety
-          Emit        \* print one CASE per final state
+          Emit,       \* print one CASE per final state ...
+          EmitMod     \* ... whose checksum is 0 modulo EmitMod (1: all; thorough tier: a deterministic sample for the replay)
 
 VARIABLES lines,      \* the docstring: sequence of line-class records (never changes)
           expect,     \* struct mode: the structure written, in the vocabulary of `sections` (never changes)
@@ -59,7 +60,8 @@ OptNames == {"ignore_init_summary", "returns_multiple_items", "returns_named_val
              "receives_multiple_items", "receives_named_value", "returns_type_in_property_summary"}
 \* trim_doctest_flags and warn_unknown_params change no branch that decides offsets, sections or items:
 \* they are varied by the harness on every case (both values), not by the model.
-Parents == {"none", "module", "class", "function", "init", "property"}
+\* aliasmod: a module in which every documented name is imported from a package that is not loaded (unresolvable alias)
+Parents == {"none", "module", "class", "function", "init", "property", "aliasmod"}
 
 ItemKinds == {"parameters", "other_parameters", "raises", "warns", "functions", "classes", "modules", "attributes"}
 RetKinds == {"returns", "yields", "receives"}
@@ -194,7 +196,20 @@ AttrFold(items, annvar, acc) ==
                 a == IF f = "F2" THEN "doc" ELSE IF f = "F?" THEN "x" ELSE IF found THEN "sig" ELSE IF annvar = "set" THEN "prev" ELSE "none"
             IN AttrFold(Tail(items), IF typed \/ found THEN "set" ELSE annvar,
                         Append(acc, El(it, IF f \in {"F1", "F2"} THEN "n" ELSE IF f = "F4" THEN "e" ELSE "x", a, "-", "c")))
-AttrEmptyLookup(items) == \E j \in 1..Len(items) : Accepted(items[j]) /\ Form(items[j]) = "F4"   \* docstring.parent[""]
+\* hazards of `docstring.parent[name].annotation` under suppress(AttributeError, KeyError, TypeError), in item order:
+\*   "empty"  name "" : _get_parts raises ValueError as soon as there is a parent
+\*   "alias"  a plain name: when the member is an alias that cannot be resolved, .annotation raises AliasResolutionError
+RECURSIVE AttrHazards(_, _)
+AttrHazards(items, acc) ==
+  IF items = <<>> THEN acc
+  ELSE LET it == Head(items) f == Form(it) IN
+       AttrHazards(Tail(items), IF ~Accepted(it) THEN acc ELSE IF f = "F4" THEN Append(acc, "empty")
+                                ELSE IF f = "F1" /\ ~sig[it.first + 1].ann THEN Append(acc, "alias") ELSE acc)
+ParentClass == [none |-> {"none"}, alias |-> {"aliasmod"}, other |-> Parents \ {"none", "aliasmod"}]
+HazardOutcome(hz, cls) ==      \* the exception of the first look-up that raises, "" when none does
+  CASE cls = "none" -> ""
+    [] cls = "alias" -> IF hz[1] = "empty" THEN "ValueError" ELSE "AliasResolutionError"
+    [] OTHER -> IF \E j \in 1..Len(hz) : hz[j] = "empty" THEN "ValueError" ELSE ""
 
 \* _get_name_annotation_description + annotation choice of the returns / yields / receives readers
 RetEl(it, named, multi) ==
@@ -247,7 +262,6 @@ Split(P, b) == IF b THEN pcand \cap P ELSE pcand \ P       \* candidates for whi
 
 \* =========================================== the case space ===========================================================
 NoSig == [ann |-> FALSE, def |-> FALSE]
-SeqDocs == UNION {[1..n -> Alphabet] : n \in 1..MaxLen}
 CleandocFixedPoint(d) ==      \* inspect.cleandoc(d.rstrip()) == d
   /\ d[1].ind = 0 /\ ~IsBlank(d[1]) /\ ~IsBlank(d[Len(d)])
   /\ (Len(d) > 1 => \E j \in 2..Len(d) : ~IsBlank(d[j]) /\ d[j].ind = 0)
@@ -388,8 +402,15 @@ RenderLines(st, so) ==     \* summary line, then the sections
   RenderAll(st, so, [lines |-> <<Text("plain")>>, sig |-> <<NoSig>>, expect |-> <<TextSec(<<0>>)>>])
 
 \* ---- Init -----------------------------------------------------------------------------------------------------
+\* every cleandoc-stable sequence of 1..MaxLen classes (enumerated piecewise: first line, middle, last line), + the empty docstring
+SeqLines ==
+  \/ lines = <<Blank("e")>>
+  \/ \E n \in 1..MaxLen : \E a \in {x \in Alphabet : x.ind = 0 /\ ~IsBlank(x)} :
+       IF n = 1 THEN lines = <<a>>
+       ELSE \E z \in {x \in Alphabet : ~IsBlank(x)}, m \in [1..(n - 2) -> Alphabet] :
+              lines = <<a>> \o m \o <<z>> /\ CleandocFixedPoint(lines)
 InitSeq ==
-  /\ lines \in {d \in SeqDocs : CleandocFixedPoint(d)} \cup {<<Blank("e")>>}     \* + the empty docstring
+  /\ SeqLines
   /\ sig = [j \in 1..Len(lines) |-> NoSig]
   /\ expect = <<>>
   /\ opts = [o \in OptNames |-> "U"]
@@ -475,15 +496,16 @@ ReadAttributesSection ==
   /\ pc = "section" /\ L(offset).a = "attributes"
   /\ LET r == ReadBlockItems(offset + 1)
          els == AttrFold(r.items, "none", <<>>)
+         hz == AttrHazards(r.items, <<>>)
          flushed == Flush(sections, cur)
+         done == IF els # <<>> THEN Append(flushed, SecRec("attributes", TitleOf(L(offset)), offset, <<>>, els, <<>>)) ELSE flushed
      IN IF r.crash # "" THEN Crash(r.crash, "_read_block_items") /\ pcand' = pcand
-        ELSE IF AttrEmptyLookup(r.items)
-          THEN \E isnone \in BOOLEAN :
-                 /\ Split({"none"}, isnone) # {} /\ pcand' = Split({"none"}, isnone)
-                 /\ IF isnone THEN Return(Append(flushed, SecRec("attributes", TitleOf(L(offset)), offset, <<>>, els, <<>>)), r.off)
-                    ELSE Crash("ValueError", "attributes")
-        ELSE /\ pcand' = pcand
-             /\ Return(IF els # <<>> THEN Append(flushed, SecRec("attributes", TitleOf(L(offset)), offset, <<>>, els, <<>>)) ELSE flushed, r.off)
+        ELSE IF hz # <<>>
+          THEN \E o \in {HazardOutcome(hz, c) : c \in {"none", "alias", "other"}} :       \* the parents split by what the look-ups do
+                 LET P == UNION {ParentClass[c] : c \in {c2 \in {"none", "alias", "other"} : HazardOutcome(hz, c2) = o}} IN
+                 /\ pcand \cap P # {} /\ pcand' = pcand \cap P
+                 /\ IF o = "" THEN Return(done, r.off) ELSE Crash(o, "attributes")
+        ELSE /\ pcand' = pcand /\ Return(done, r.off)
   /\ UNCHANGED <<input, opts, excl>>
 
 \* returns / yields / receives: _read_block_items_maybe(multiple=...), then one element per block item
@@ -565,12 +587,13 @@ Final == Done \/ Crashed
 \* C12-total: no exception.  The three crash sites below are the genuine defects of the pinned tree (findings.d/C12.json);
 \* the *_defect configurations check NoCrash itself and document them with a counterexample.
 KnownCrashSites == {<<"IndexError", "returns">>, <<"IndexError", "yields">>, <<"IndexError", "receives">>,
-                    <<"AttributeError", "property_summary">>, <<"ValueError", "attributes">>}
+                    <<"AttributeError", "property_summary">>, <<"ValueError", "attributes">>, <<"AliasResolutionError", "attributes">>}
 NoCrash == ~Crashed
 \* one invariant per documented defect (checked - and violated - in DocGoogle_defect.cfg)
 NoIndexErrorSingleItemBlock == ~(Crashed /\ crash.exc = "IndexError" /\ crash.at \in RetKinds)
 NoAttributeErrorPropertySummary == ~(Crashed /\ crash.at = "property_summary")
-NoValueErrorEmptyAttributeName == ~(Crashed /\ crash.at = "attributes")
+NoValueErrorEmptyAttributeName == ~(Crashed /\ crash.at = "attributes" /\ crash.exc = "ValueError")
+NoAliasResolutionErrorInAttributes == ~(Crashed /\ crash.exc = "AliasResolutionError")
 NoCrashBeyondKnown == Crashed => <<crash.exc, crash.at>> \in KnownCrashSites
 
 \* C12-terminating: every step of the main loop (with or without a reader) moves the offset forward
@@ -607,8 +630,13 @@ ParsesBack == (Mode = "struct" /\ Final) => (Done /\ sections = expect)
 AttrLeak == \E j \in 1..Len(sections) : sections[j].kind = "attributes" /\ \E m \in 1..Len(sections[j].items) : sections[j].items[m].ann = "prev"
 ParsesBackBeyondKnown == (Mode = "struct" /\ Final /\ ~(Done /\ AttrLeak)) => (Done /\ sections = expect)
 
+\* every state is checked against the invariants; the replay harness gets the final states whose checksum is 0 mod EmitMod
+LineCode(ln) == ln.ind + (CASE ln.k = "blank" -> 1 [] ln.k = "text" -> 2 [] ln.k = "sec" -> 3 [] ln.k = "adm" -> 5 [] ln.k = "item" -> 7 [] ln.k = "fence" -> 11 [] OTHER -> 13)
+                 + (CASE ln.a \in {"F1", "plain", "parameters", "e"} -> 0 [] ln.a \in {"F4", "colon", "attributes", "w"} -> 17 [] ln.a \in {"F5", "returns"} -> 19 [] OTHER -> 23)
+RECURSIVE Checksum(_, _)
+Checksum(j, acc) == IF j > Len(lines) THEN acc ELSE Checksum(j + 1, (acc * 31 + j * LineCode(lines[j])) % 1000003)
 EmitCase ==
-  (Emit /\ Final) =>
+  (Emit /\ Final /\ (EmitMod = 1 \/ Checksum(1, Len(lines)) % EmitMod = 0)) =>
      IF Mode = "seq"
        THEN PrintT(<<"CASE", ToJson([lines |-> lines, opts |-> opts, pcand |-> pcand, excl |-> excl, outcome |-> pc, crash |-> crash,
                                      sections |-> sections, flags |-> flags])>>)
